@@ -103,7 +103,7 @@ func changedSections(a, b string) string {
 		return s[i : i+j]
 	}
 	var out []string
-	for _, t := range []struct{ tag, name string }{{"A", "accounts"}, {"B", "balances"}, {"L", "logs"}} {
+	for _, t := range []struct{ tag, name string }{{"A", "accounts"}, {"B", "balances"}, {"L", "logs"}, {"M", "stakes"}} {
 		if sec(a, t.tag) != sec(b, t.tag) {
 			out = append(out, t.name)
 		}
@@ -194,12 +194,8 @@ func riskyOps(f *frame, acc map[string]bool) {
 		case 'A':
 			acc["authcall"] = true
 			riskyOps(a.body, acc)
-		case 'K':
-			acc["stake"] = true
-		case 'U':
-			acc["unstake"] = true
-		case 'V':
-			acc["unstakeall"] = true
+		case 'K', 'U', 'V':
+			acc["stakefamily"] = true
 		case 'C', 'N':
 			riskyOps(a.body, acc)
 		}
@@ -819,6 +815,28 @@ func runSearch(a map[string]string) {
 		}
 		probes += len(blk.txs)
 		classes["real-loop"]++
+	}
+	// 2c. STAKE / UNSTAKE / UNSTAKEALL inside a STATICCALL into a registered miner account, directly and one CALL deeper
+	for _, op := range []*act{{kind: 'K', k: 1}, {kind: 'U', k: 1}, {kind: 'V'}} {
+		for _, nested := range []bool{false, true} {
+			g := newGen(r.Fork(), st)
+			g.nextID = 2
+			accs := stdAccounts()
+			for i := range accs {
+				if accs[i].n == 23 {
+					accs[i].kind, accs[i].balance = "m", 2000000000000000007
+				}
+			}
+			blk := &block{cfg: cfgs[0], accounts: accs, salts: map[int]*frame{}}
+			g.blk = blk
+			f := &frame{acts: []*act{op}, end: "stop"}
+			if nested {
+				f = &frame{acts: []*act{{kind: 'C', id: g.id(), ck: "call", addr: "b23", body: f}}, end: "stop"}
+			}
+			sc := &act{kind: 'C', id: g.id(), ck: "staticcall", addr: "b23", body: f}
+			blk.txs = []*txn{{hash: 1, origin: "b10", target: "b20", rootID: 1, body: &frame{acts: []*act{sc}, end: "stop"}, blk: blk}}
+			runBlock(blk, "stake-static")
+		}
 	}
 	// 2b. STAKE inside a STATICCALL (needs a registered miner account; outside the line protocol)
 	probes++
